@@ -224,7 +224,14 @@ fn one_injection(cs: &mut Cases, class: &str, rng: &mut Rng, fmt: &str, ty: &Dyn
     }
     let mut doc = base.clone();
     let mut injected: Vec<(String, bool)> = vec![];
-    let names = ["zz", "unknown-1", "ö", "type", "Bb", "__ignore"];
+    // short and long names (a key longer than any inline buffer), one that a JSON reader cannot borrow from its input
+    // because it holds escapes; the first candidate varies
+    let mut names: Vec<String> = ["zz", "unknown-1", "ö", "type", "Bb", "__ignore"].iter().map(|s| s.to_string()).collect();
+    names.push("k".repeat(129));
+    names.push(format!("{}é", "long-".repeat(60)));
+    names.push("es\"c\\ape\n\u{1}".to_string());
+    let k = rng.below(names.len());
+    names.rotate_left(k);
     // several injections: deepest paths first so that recorded member indices stay valid
     let mut picks: Vec<usize> = (0..count).map(|_| rng.below(pos.len())).collect();
     picks.sort_by_key(|&i| std::cmp::Reverse(pos[i].0.len()));
@@ -351,4 +358,4 @@ fn oval_tree_for(fmt: &str, json_tree: &Tree) -> Tree {
     json_tree.clone()
 }
 
-pub const RULE: &str = "a fixed nest of real #[derive(Deserialize)] types (struct in list, map value, optional, newtype, newtype/tuple/struct variants, tuple) and its dynamic twin, and seeded typed values of depth 1..4 (6) serialized by the real serializers; 1-3 unknown members (6 names, never a declared one) holding seeded documents (null, numbers, strings such as NaN, nested arrays/objects) are inserted at seeded member positions of seeded struct objects at any depth; both formats; client and server deserializers from all input sources. Oracle: the client returns exactly the original value; the server rejects with a message naming an injected member (objects of struct *variants* are recorded as not intercepted and carry no oracle); the derive types and the dynamic visitor must agree. Compared with the model's de on the same document. All cases non-trivial; distinct = distinct operation lines.";
+pub const RULE: &str = "a fixed nest of real #[derive(Deserialize)] types (struct in list, map value, optional, newtype, newtype/tuple/struct variants, tuple) and its dynamic twin, and seeded typed values of depth 1..4 (6) serialized by the real serializers; 1-3 unknown members (9 names, among them names of 129 and 302 bytes and one with escapes; never a declared one) holding seeded documents (null, numbers, strings such as NaN, nested arrays/objects) are inserted at seeded member positions of seeded struct objects at any depth; both formats; client and server deserializers from all input sources. Oracle: the client returns exactly the original value; the server rejects with a message naming an injected member (objects of struct *variants* are recorded as not intercepted and carry no oracle); the derive types and the dynamic visitor must agree. Compared with the model's de on the same document. All cases non-trivial; distinct = distinct operation lines.";
